@@ -22,6 +22,7 @@ pub mod c13;
 pub mod c14;
 pub mod c17;
 pub mod c18;
+pub mod c19;
 pub mod cli;
 
 pub struct Ctx<'a> {
@@ -144,6 +145,7 @@ pub fn custom_by_id(id: &str) -> Option<CustomRun> {
         "C16" => Some(cli::run_c16),
         "C17" => Some(c17::run),
         "C18" => Some(c18::run),
+        "C19" => Some(c19::run),
         _ => None,
     }
 }
